@@ -21,6 +21,8 @@ pub struct DwarfOpts {
     pub high_addr: bool,
     /// one spanning sequence that has no DW_LNE_set_address (its addresses count from 0)
     pub no_set_address: bool,
+    /// an extra line sequence based at 0xFFFFFFFF (what a linker leaves for code it discarded), lines from 1000000
+    pub tombstoned_seq: bool,
 }
 
 pub struct FuncLayout {
@@ -131,6 +133,16 @@ pub fn add_dwarf(wasm: &[u8], opts: DwarfOpts) -> Option<Vec<u8>> {
     if opts.spanning && !funcs.is_empty() {
         lp.end_sequence(funcs.last().unwrap().end - base0);
     }
+    if opts.tombstoned_seq {
+        lp.begin_sequence(Some(Address::Constant(0xFFFF_FFFF)));
+        for k in 0..6u64 {
+            lp.row().address_offset = k * 2;
+            lp.row().file = file;
+            lp.row().line = 1_000_000 + k;
+            lp.generate_row();
+        }
+        lp.end_sequence(14);
+    }
     dwarf.unit.line_program = lp;
     let root = dwarf.unit.root();
     dwarf.unit.get_mut(root).set(gimli::DW_AT_name, AttributeValue::String(b"main.c".to_vec()));
@@ -178,5 +190,5 @@ pub fn materialize(spec: &str) -> Option<Vec<u8>> {
     let mode = it.next()?;
     let base = it.next()?;
     let wasm = crate::workload::materialize(base)?;
-    add_dwarf(&wasm, DwarfOpts { version, spanning: mode == "s" || mode == "n", file0: mode == "z", high_addr: mode == "a", no_set_address: mode == "n" })
+    add_dwarf(&wasm, DwarfOpts { version, spanning: mode == "s" || mode == "n", file0: mode == "z", high_addr: mode == "a", no_set_address: mode == "n", tombstoned_seq: mode == "t" })
 }
